@@ -63,6 +63,8 @@ type Gen struct {
 	shared map[string]bool
 	// ctrlBias: prefer control-flow statements (C06 profile)
 	ctrlBias bool
+	// callBias: prefer calls, function literals, method values, returns (C09 profile)
+	callBias bool
 }
 
 func NewGen(r *rand.Rand, o GenOpts) *Gen { return &Gen{r: r, o: o} }
@@ -484,9 +486,9 @@ func (g *Gen) boolExpr(depth int) *E {
 		}
 		return &E{K: "bin", Ty: TBool, Op: ops[g.r.Intn(len(ops))], L: l, R: r}
 	case x < 65:
-		return &E{K: "and", Ty: TBool, L: g.expr(TBool, depth-1), R: g.expr(TBool, depth-1)}
+		return &E{K: "and", Ty: TBool, L: g.expr(TBool, depth-1), R: g.boolOperand(depth - 1)}
 	case x < 80:
-		return &E{K: "or", Ty: TBool, L: g.expr(TBool, depth-1), R: g.expr(TBool, depth-1)}
+		return &E{K: "or", Ty: TBool, L: g.expr(TBool, depth-1), R: g.boolOperand(depth - 1)}
 	case x < 88:
 		return &E{K: "not", Ty: TBool, X: g.expr(TBool, depth-1)}
 	case x < 92 && g.o.Structs:
@@ -507,6 +509,22 @@ func (g *Gen) boolExpr(depth int) *E {
 		}
 	}
 	return g.expr(TBool, 0)
+}
+
+// boolOperand: the right operand of && / ||; prefers a bare field or element read of a local (these
+// are what the peephole pass fuses, and what a jump over the operand must account for)
+func (g *Gen) boolOperand(depth int) *E {
+	if g.o.Structs && g.r.Intn(3) == 0 {
+		if e := g.fieldExpr(TBool, depth); e != nil {
+			return e
+		}
+	}
+	if g.o.Containers && g.r.Intn(4) == 0 {
+		if e := g.indexExpr(TBool, depth); e != nil {
+			return e
+		}
+	}
+	return g.expr(TBool, depth)
 }
 
 func (g *Gen) strExpr(depth int) *E {
@@ -586,10 +604,13 @@ func (g *Gen) callOf(f gfunc, depth int) *E {
 	}
 	if f.variadic {
 		vt := params[len(params)-1]
-		if vs := g.varsOf(vt, false); len(vs) > 0 && g.r.Intn(3) == 0 {
+		if vs := g.varsOf(vt, false); len(vs) > 0 && g.r.Intn(2) == 0 {
 			sv := vs[g.r.Intn(len(vs))]
 			g.shared[sv.name] = true
 			e.Args = append(e.Args, &E{K: "var", Ty: vt, Name: sv.name})
+			e.Spread = true
+		} else if g.r.Intn(4) == 0 {
+			e.Args = append(e.Args, g.literal(vt))
 			e.Spread = true
 		} else {
 			for i := g.r.Intn(4); i > 0; i-- {
@@ -693,6 +714,23 @@ func (g *Gen) stmt(depth int) []*S {
 	x := g.r.Intn(100)
 	if g.ctrlBias && depth > 0 && g.r.Intn(100) < 55 {
 		x = 56 + g.r.Intn(37) // if / loops / switch / break / continue / return
+	}
+	if g.callBias && g.r.Intn(100) < 45 {
+		switch g.r.Intn(4) {
+		case 0:
+			x = 91 // return
+		case 1:
+			x = 94 // call statement
+		default:
+			if g.r.Intn(2) == 0 {
+				if out := g.funcValueTemplate(depth); out != nil {
+					return out
+				}
+			} else if out := g.methodValueTemplate(depth); out != nil {
+				return out
+			}
+			x = 94
+		}
 	}
 	switch {
 	case x < 18: // declaration
@@ -1007,8 +1045,17 @@ func (g *Gen) switch_(depth int) *S {
 		for j := 0; j < nv; j++ {
 			if tagged {
 				var v *E
-				if g.r.Intn(4) == 0 {
-					v = g.nonConst(tt, 1)
+				if g.r.Intn(3) == 0 {
+					// a field / element / call as case value
+					if g.o.Structs && g.r.Intn(2) == 0 {
+						v = g.fieldExpr(tt, 1)
+					}
+					if v == nil && g.o.Containers && g.r.Intn(2) == 0 {
+						v = g.indexExpr(tt, 1)
+					}
+					if v == nil {
+						v = g.nonConst(tt, 1)
+					}
 				}
 				if v == nil {
 					for k := 0; k < 10; k++ {
@@ -1176,7 +1223,7 @@ func (g *Gen) function(i int) {
 			g.shared[n] = true
 		}
 	}
-	if g.r.Intn(4) == 0 {
+	if g.r.Intn(3) == 0 {
 		et := []*Ty{TInt, TString}[g.r.Intn(2)]
 		if !g.o.Strings {
 			et = TInt
